@@ -1,0 +1,94 @@
+// SPDX-License-Identifier: (Apache-2.0 OR MIT)
+
+//! Observation hooks for external runtime monitors. Compiled only with the `verif-hooks` cargo
+//! feature (off by default); without it this module and its call sites do not exist.
+//!
+//! The interpreter reports the addresses of the buffers it was handed and every program counter
+//! it executes. A monitor can bound the number of executed instructions (so that programs that
+//! loop forever return an error instead of spinning) and can record the executed pc sequence.
+//!
+//! All state is made of process-wide atomics so that the module works without `std`.
+
+use core::sync::atomic::{AtomicBool, AtomicU64, AtomicUsize, Ordering::Relaxed};
+
+/// Remaining instruction budget; `u64::MAX` means unlimited.
+pub static BUDGET: AtomicU64 = AtomicU64::new(u64::MAX);
+/// Number of instructions executed since the last `reset()`.
+pub static COUNT: AtomicU64 = AtomicU64::new(0);
+/// FNV-1a style fold of every executed pc since the last `reset()`.
+pub static PC_HASH: AtomicU64 = AtomicU64::new(0xcbf2_9ce4_8422_2325);
+/// Largest pc executed since the last `reset()`.
+pub static MAX_PC: AtomicU64 = AtomicU64::new(0);
+/// Whether pcs are recorded (hash, max, buffer) at all.
+pub static TRACE_ON: AtomicBool = AtomicBool::new(false);
+/// Optional caller-owned buffer receiving the first `TRACE_CAP` pcs.
+pub static TRACE_PTR: AtomicUsize = AtomicUsize::new(0);
+/// Capacity (in u32 entries) of the buffer behind `TRACE_PTR`.
+pub static TRACE_CAP: AtomicUsize = AtomicUsize::new(0);
+/// Address of the interpreter's private stack for the current/last execution.
+pub static STACK_ADDR: AtomicU64 = AtomicU64::new(0);
+/// Address/length of the `mem` slice of the current/last execution.
+pub static MEM_ADDR: AtomicU64 = AtomicU64::new(0);
+/// See `MEM_ADDR`.
+pub static MEM_LEN: AtomicU64 = AtomicU64::new(0);
+/// Address/length of the `mbuff` slice of the current/last execution.
+pub static MBUFF_ADDR: AtomicU64 = AtomicU64::new(0);
+/// See `MBUFF_ADDR`.
+pub static MBUFF_LEN: AtomicU64 = AtomicU64::new(0);
+
+/// Reset counters and set the instruction budget for the next execution(s).
+pub fn reset(budget: u64, trace: bool) {
+    BUDGET.store(budget, Relaxed);
+    COUNT.store(0, Relaxed);
+    PC_HASH.store(0xcbf2_9ce4_8422_2325, Relaxed);
+    MAX_PC.store(0, Relaxed);
+    TRACE_ON.store(trace, Relaxed);
+}
+
+/// Register (or clear, with a null pointer) the buffer receiving the first `cap` executed pcs.
+///
+/// # Safety
+///
+/// `ptr` must stay valid for writes of `cap` `u32`s until it is cleared.
+pub unsafe fn set_trace_buffer(ptr: *mut u32, cap: usize) {
+    TRACE_CAP.store(0, Relaxed);
+    TRACE_PTR.store(ptr as usize, Relaxed);
+    TRACE_CAP.store(if ptr.is_null() { 0 } else { cap }, Relaxed);
+}
+
+#[inline]
+pub(crate) fn on_start(stack: &[u8], mem: &[u8], mbuff: &[u8]) {
+    STACK_ADDR.store(stack.as_ptr() as u64, Relaxed);
+    MEM_ADDR.store(mem.as_ptr() as u64, Relaxed);
+    MEM_LEN.store(mem.len() as u64, Relaxed);
+    MBUFF_ADDR.store(mbuff.as_ptr() as u64, Relaxed);
+    MBUFF_LEN.store(mbuff.len() as u64, Relaxed);
+}
+
+/// Called before each instruction is fetched. Returns `false` when the budget is exhausted.
+#[inline]
+pub(crate) fn on_insn(pc: usize) -> bool {
+    let b = BUDGET.load(Relaxed);
+    if b != u64::MAX {
+        if b == 0 {
+            return false;
+        }
+        BUDGET.store(b - 1, Relaxed);
+    }
+    let n = COUNT.load(Relaxed);
+    COUNT.store(n + 1, Relaxed);
+    if TRACE_ON.load(Relaxed) {
+        let h = (PC_HASH.load(Relaxed) ^ pc as u64).wrapping_mul(0x0000_0100_0000_01b3);
+        PC_HASH.store(h, Relaxed);
+        if pc as u64 > MAX_PC.load(Relaxed) {
+            MAX_PC.store(pc as u64, Relaxed);
+        }
+        let cap = TRACE_CAP.load(Relaxed);
+        if (n as usize) < cap {
+            let p = TRACE_PTR.load(Relaxed) as *mut u32;
+            // Safety: contract of `set_trace_buffer`.
+            unsafe { p.add(n as usize).write(pc as u32) };
+        }
+    }
+    true
+}
